@@ -15,12 +15,18 @@ import (
 func init() {
 	const logp = "github.com/Oneledger/protocol/log"
 	for k, v := range map[string]externalFn{
-		logp + ".newSyncWriter":      func(fr *frame, args []value) value { return args[0] },
-		"(*" + logp + ".Logger).fprintln": func(fr *frame, args []value) value { fr.i.x.stub("log.Logger output (no-op; Fatal still exits)"); return nil },
-		"(*" + logp + ".Logger).fprintf":  func(fr *frame, args []value) value { fr.i.x.stub("log.Logger output (no-op; Fatal still exits)"); return nil },
-		"(*" + logp + ".Logger).Dump":     extNop,
-		"github.com/davecgh/go-spew/spew.Fdump": extNop,
-		"github.com/tendermint/go-amino.NewCodec":                  func(fr *frame, args []value) value { return (*value)(nil) },
+		logp + ".newSyncWriter": func(fr *frame, args []value) value { return args[0] },
+		"(*" + logp + ".Logger).fprintln": func(fr *frame, args []value) value {
+			fr.i.x.stub("log.Logger output (no-op; Fatal still exits)")
+			return nil
+		},
+		"(*" + logp + ".Logger).fprintf": func(fr *frame, args []value) value {
+			fr.i.x.stub("log.Logger output (no-op; Fatal still exits)")
+			return nil
+		},
+		"(*" + logp + ".Logger).Dump":                               extNop,
+		"github.com/davecgh/go-spew/spew.Fdump":                     extNop,
+		"github.com/tendermint/go-amino.NewCodec":                   func(fr *frame, args []value) value { return (*value)(nil) },
 		"github.com/Oneledger/protocol/serialize.RegisterConcrete":  extNop,
 		"github.com/Oneledger/protocol/serialize.RegisterInterface": extNop,
 		"github.com/Oneledger/protocol/serialize.msgpackRegConc":    extNop,
@@ -60,9 +66,9 @@ func init() {
 			}
 			panic(exitPanic(70))
 		},
-		"reflect.TypeOf": func(fr *frame, args []value) value { return iface{} },
+		"reflect.TypeOf":   func(fr *frame, args []value) value { return iface{} },
 		"time.runtimeNano": func(fr *frame, args []value) value { return int64(1) },
-		"time.now": func(fr *frame, args []value) value { return tuple{int64(0), int32(0), int64(0)} },
+		"time.now":         func(fr *frame, args []value) value { return tuple{int64(0), int32(0), int64(0)} },
 		"time.Now": func(fr *frame, args []value) value {
 			fr.i.x.stub("time.Now (environment: fixed zero instant; must not reach consensus outputs)")
 			return zero(fr.fn.Signature.Results().At(0).Type())
@@ -215,6 +221,19 @@ func init() {
 	externals[u+".NewUUID"] = func(fr *frame, args []value) value { return tuple{fresh(fr), iface{}} }
 	externals[u+".New"] = func(fr *frame, args []value) value { return fresh(fr) }
 	externals[u+".NewRandom"] = func(fr *frame, args []value) value { return tuple{fresh(fr), iface{}} }
+	// go-cmp's Equal on two strings (the only use in the repository)
+	externals["github.com/google/go-cmp/cmp.Equal"] = func(fr *frame, args []value) value {
+		a, aok := args[0].(iface)
+		b, bok := args[1].(iface)
+		if aok && bok {
+			as, ok1 := a.v.(string)
+			bs, ok2 := b.v.(string)
+			if ok1 && ok2 && !hasSymMarker(as) && !hasSymMarker(bs) {
+				return as == bs
+			}
+		}
+		panic(abortPath{"cmp.Equal on values other than concrete strings"})
+	}
 	externals["("+u+".UUID).String"] = func(fr *frame, args []value) value {
 		a := args[0].(array)
 		b := make([]byte, 16)
